@@ -3,6 +3,7 @@ import CppUModel.Proofs.TeamCityParse
 import CppUModel.Proofs.TeamCityStream
 import CppUModel.Proofs.TeamCityLoop
 import CppUModel.Proofs.TeamCitySeparate
+import CppUModel.Model.TeamCityMock
 /-!
 # C20 — TeamCity output is a balanced, correctly escaped service-message stream
 
@@ -271,6 +272,111 @@ theorem location_prefix_cases (t : TestInfo) (f : Bytes) (l : Nat) (m : Bytes) :
         exact ⟨hc.1.symm, Nat.not_lt.mp (fun hlt => hc.2 (decide_eq_true hlt))⟩
     · rintro ⟨rfl, h2⟩
       simp [Nat.not_lt.mpr h2]
+
+/-! ## failures found by the mock plugin's post-test action (`Model/TeamCityMock.lean`)
+
+`MockSupportPlugin::postTestAction` runs after `runOneTestInCurrentProcess` has put the saved current test back, so
+`UtestShell::getCurrent()` is no longer the test the failure is about; `MockSupportPluginReporter::getTestToFail` returns
+the plugin's own `test` argument.  The failure is a post-action failure of the open test. -/
+
+section MockPlugin
+open TeamCityMock
+
+theorem postEvs_append (t : TestInfo) : ∀ (a b : List Act), postEvs t (a ++ b) = postEvs t a ++ postEvs t b
+  | [], b => rfl
+  | .postFail m :: as, b => by simp [postEvs, postEvs_append t as b]
+  | .print _ _ _ :: as, b => by simp [postEvs, postEvs_append t as b]
+  | .fail _ _ _ :: as, b => by simp [postEvs, postEvs_append t as b]
+  | .failExit _ _ _ :: as, b => by simp [postEvs, postEvs_append t as b]
+  | .failMsg _ :: as, b => by simp [postEvs, postEvs_append t as b]
+  | .failLoc _ _ :: as, b => by simp [postEvs, postEvs_append t as b]
+  | .checks _ :: as, b => by simp [postEvs, postEvs_append t as b]
+  | .tick _ :: as, b => by simp [postEvs, postEvs_append t as b]
+
+theorem actEvs_append_postFail (t : TestInfo) (m : Bytes) : ∀ a : List Act, actEvs t (a ++ [.postFail m]) = actEvs t a
+  | [] => rfl
+  | .postFail _ :: as => by simp [actEvs, actEvs_append_postFail t m as]
+  | .print _ _ _ :: as => by simp [actEvs, actEvs_append_postFail t m as]
+  | .fail _ _ _ :: as => by simp [actEvs, actEvs_append_postFail t m as]
+  | .failExit _ _ _ :: as => by simp [actEvs]
+  | .failMsg _ :: as => by simp [actEvs, actEvs_append_postFail t m as]
+  | .failLoc _ _ :: as => by simp [actEvs, actEvs_append_postFail t m as]
+  | .checks _ :: as => by simp [actEvs, actEvs_append_postFail t m as]
+  | .tick _ :: as => by simp [actEvs, actEvs_append_postFail t m as]
+
+/-- The failure the mock plugin's post-test action reports is built for the test the PLUGIN was called for — whatever
+    `UtestShell::getCurrent()` is by then (`c.current` is arbitrary) — and the writer renders it as a `testFailed`
+    message with that test's name, located at that test, the mock framework's text as details. -/
+theorem mock_plugin_failure_names_the_plugins_test (c : PostCall) (name : Bytes) (s : St) (h : c.hasFailed = false) :
+    postTestAction c (some name) = [.failure (msgFailure c.test (mockMessage name))] ∧
+    msgsFrom s (postTestAction c (some name)) =
+      [.testFailed c.test.name (c.test.file ++ lit ":" ++ dec c.test.line) (mockMessage name)] := by
+  have h1 : postTestAction c (some name) = [.failure (msgFailure c.test (mockMessage name))] := by
+    simp [postTestAction, h, testToFail]
+  refine ⟨h1, ?_⟩
+  rw [h1]
+  simp [msgsFrom_cons, msgsFrom_nil, msgsOf, failureLocation, Failure.isOutsideTestFile, Failure.isInHelperFunction,
+    msgFailure_file, msgFailure_line, msgFailure_testFile, msgFailure_testLine, msgFailure_testName, msgFailure_message]
+
+/-- a test that has failed already is not checked (`if (!test.hasFailed())`), and no expectation = no failure -/
+theorem mock_plugin_silent (c : PostCall) (name : Bytes) (h : c.hasFailed = true) :
+    postTestAction c (some name) = [] ∧ postTestAction c none = [] := by
+  simp [postTestAction, h]
+
+/-- The scripted form used by the run model (`withMock`) is exactly that post-test action, appended to the other
+    plugins' post-action failures (the mock plugin is installed last); the body's events and the test's identity
+    are unchanged. -/
+theorem mock_scenario_is_the_plugins_post_action (t : Script) (left : Option Bytes) (cur : TestInfo) :
+    postEvs t.info (withMock left t).acts =
+      postEvs t.info t.acts ++ postTestAction { test := t.info, current := cur, hasFailed := bodyHasFailed t.acts } left ∧
+    actEvs t.info (withMock left t).acts = actEvs t.info t.acts ∧ (withMock left t).info = t.info := by
+  cases left with
+  | none => simp [withMock, postTestAction]
+  | some name =>
+    cases hb : bodyHasFailed t.acts <;>
+      simp [withMock, postTestAction, hb, postEvs, actEvs, postEvs_append, actEvs_append_postFail, testToFail]
+
+theorem withMock_info (left : Option Bytes) (t : Script) : (withMock left t).info = t.info :=
+  (mock_scenario_is_the_plugins_post_action t left t.info).2.2
+
+theorem applyMocks_groups (tests : List Script) (mocks : List (Nat × Bytes)) (hne : ∀ t ∈ tests, t.info.group ≠ []) :
+    ∀ t ∈ applyMocks tests mocks, t.info.group ≠ [] := by
+  intro t ht
+  simp only [applyMocks, List.mem_map] at ht
+  obtain ⟨p, hp, rfl⟩ := ht
+  rw [withMock_info]
+  exact hne p.1 (List.of_mem_zip (a := p.1) (b := p.2) hp).1
+
+/-- A failure added by the mock plugin's post-test action lies inside the started/finished block of its test and names
+    it: in every run (any registry, filter, number of repetitions, verbosity) in which any tests leave a mock expectation
+    unfulfilled, every `testFailed` names the open test, and all messages pair up. -/
+theorem mock_post_action_failure_belongs_to_open_test (vv : Bool) (n : Nat) (flt : Option Filter) (tests : List Script)
+    (mocks : List (Nat × Bytes)) :
+    failuresInOpenTest none (messagesV vv (runRepeated n flt (applyMocks tests mocks))) = true ∧
+    ((∀ t ∈ tests, t.info.group ≠ []) → balanced (messagesV vv (runRepeated n flt (applyMocks tests mocks))) = true) :=
+  ⟨failure_belongs_to_open_test_repeated vv n flt _,
+   fun hne => messages_balanced_repeated vv n flt _ (applyMocks_groups tests mocks hne)⟩
+
+/-- non-vacuity: a test that only leaves the expectation `f'1` unfulfilled; the current test at post-action time is the
+    placeholder, not the test -/
+def mockDemo : List Script :=
+  [{ info := { group := lit "grp", name := lit "leaves|one", file := lit "t.cpp", line := 7, willRun := true }, acts := [] },
+   { info := { group := lit "grp", name := lit "fails_itself", file := lit "t.cpp", line := 9, willRun := true },
+     acts := [.failMsg (lit "own")] }]
+
+def placeholder : TestInfo := { group := lit "\n\t NoGroup", name := lit "\n\t NoName", file := lit "unknown file", line := 0, willRun := true }
+
+example : (postTestAction { test := (mockDemo.headD default).info, current := placeholder, hasFailed := false } (some (lit "f'1"))).length = 1 := by decide
+example : ∀ t ∈ mockDemo, t.info.group ≠ [] := by decide
+set_option maxRecDepth 8192 in
+example : messages (runAll none (applyMocks mockDemo [(0, lit "f'1"), (1, lit "g")])) =
+    [.suiteStarted (lit "grp"), .testStarted (lit "leaves|one"),
+     .testFailed (lit "leaves|one") (lit "t.cpp:7") (mockMessage (lit "f'1")), .testFinished (lit "leaves|one") 0,
+     .testStarted (lit "fails_itself"), .testFailed (lit "fails_itself") (lit "t.cpp:9") (lit "own"),
+     .testFinished (lit "fails_itself") 0, .suiteFinished (lit "grp"),
+     .text (summaryOut (R.summary { tests := 2, runs := 2, checks := 2, failures := 2 }))] := by decide
+
+end MockPlugin
 
 /-! ## decoding the whole stream -/
 
